@@ -182,10 +182,11 @@ def write_cfg(path, spec="SpecE", consts=None, invariants=(), constraints=(), ac
     return path
 
 
-def run_harness(exe, args, timeout=1800, stdin=None):
+def run_harness(exe, args, timeout=1800, stdin=None, env=None):
     """returns dict(stats, viols, mismatch, ords, rc, out)"""
     try:
-        r = subprocess.run(["timeout", str(timeout), exe] + list(args), stdout=subprocess.PIPE, stderr=subprocess.PIPE, text=True, input=stdin)
+        r = subprocess.run(["timeout", str(timeout), exe] + list(args), stdout=subprocess.PIPE, stderr=subprocess.PIPE, text=True, input=stdin,
+                           env=dict(os.environ, **env) if env else None)
     except Exception as e:
         raise ToolFailure("harness failed to run: %s" % e)
     res = {"stats": {}, "viols": [], "mismatch": None, "ords": [], "rc": r.returncode, "out": r.stdout, "err": r.stderr, "lines": []}
@@ -197,6 +198,8 @@ def run_harness(exe, args, timeout=1800, stdin=None):
         elif line.startswith("VIOL "):
             parts = line[5:].split("|", 5)
             res["viols"].append(parts)
+        elif line.startswith("DIVFILE "):
+            res.setdefault("divfiles", []).append(line[8:].strip())
         elif line.startswith("MISMATCH ") and res["mismatch"] is None:
             res["mismatch"] = line[9:]
         elif line.startswith("ORD "):
